@@ -195,3 +195,69 @@ fn kv_reported_position_body(rot: usize) {
 // (C09: a lock-step harness - a real static sound from StaticSoundData::into_sound and a real StreamingSound over the same
 // 5 frames, 3 callbacks, one shared uninterpreted interpolate_frame - produced 24 M SAT variables and ran out of memory at
 // 32 GB; it was removed. The equality of whole outputs rests on the two one-step relations above and in c04_static_sound.rs.)
+
+// @h prop=C03,C07 tier=quick kind=main timeout=900
+// @bounds a streaming sound in ANY live state (Playing, Pausing, Paused, WaitingToResume, Resuming, Stopping); in ONE callback interval the handle issued stop() together with pause() and/or resume()/resume_at() (any subset, symbolic); one on_start_processing
+// @funcs StreamingSound::on_start_processing, StreamingSound::read_commands, StreamingSound::{pause,resume,stop}, PlaybackStateManager::{pause,resume,stop}
+// @catches stop() being overridden by a pause or resume issued in the same callback interval (the sound would never reach Stopped and never be unloaded): "stop: Stopping then Stopped" must hold for the command sequence pause, stop as it does for static sounds
+#[kani::proof]
+#[kani::unwind(8)]
+fn c03_streaming_stop_wins_over_pause_and_resume_in_the_same_interval() {
+	let (mut prod, cons) = RingBuffer::new(8);
+	prod.push(TimestampedFrame { frame: Frame::ZERO, index: 0 }).ok().unwrap();
+	let (mut w, readers, sr) = command_writers_and_readers();
+	std::mem::forget(sr);
+	let mut s = StreamingSound {
+		command_readers: readers, sample_rate: 1, frame_consumer: cons, start_time: StartTime::Immediate,
+		playback_state_manager: PlaybackStateManager::new(None), current_frame: 0, fractional_position: 0.0,
+		volume: Parameter::new(Value::Fixed(Decibels::IDENTITY), Decibels::IDENTITY),
+		playback_rate: Parameter::new(Value::Fixed(PlaybackRate(1.0)), PlaybackRate(1.0)),
+		panning: Parameter::new(Value::Fixed(Panning::CENTER), Panning::CENTER),
+		shared: Arc::new(Shared::new()),
+	};
+	let sel: u8 = kani::any();
+	kani::assume(sel < 6);
+	let st = match sel { 0 => PlaybackState::Playing, 1 => PlaybackState::Pausing, 2 => PlaybackState::Paused, 3 => PlaybackState::WaitingToResume, 4 => PlaybackState::Resuming, _ => PlaybackState::Stopping };
+	s.playback_state_manager = PlaybackStateManager::kv_forced(st, StartTime::Delayed(Duration::from_secs(100)));
+	s.shared.set_state(st);
+	let tw = Tween { start_time: StartTime::Immediate, duration: Duration::from_millis(250), easing: crate::Easing::Linear };
+	let with_pause: bool = kani::any();
+	let with_resume: u8 = kani::any();
+	kani::assume(with_resume < 3);
+	if with_pause { w.pause.write(tw); }
+	if with_resume == 1 { w.resume.write((StartTime::Immediate, tw)); }
+	if with_resume == 2 { w.resume.write((StartTime::Delayed(Duration::from_secs(5)), tw)); }
+	w.stop.write(tw);
+	s.on_start_processing();
+	assert!(s.playback_state_manager.playback_state() == PlaybackState::Stopping, "a stop issued in this interval leaves the sound Stopping, whatever else was issued with it");
+	assert!(s.shared.state() == PlaybackState::Stopping, "and the handle reports it");
+	kani::cover!(with_pause && sel == 0, "w:pause+stop while playing");
+	kani::cover!(with_resume == 1 && sel == 2, "w:resume+stop while paused");
+	std::mem::forget(s); std::mem::forget(prod); std::mem::forget(w);
+}
+
+// @h prop=C09,C03,C10 tier=quick kind=main timeout=900
+// @bounds the decoder has reached the end of the audio and 1..=3 frames are left in the ring; playback rate 2 or 3 (a step of 2 or 3 frames per output frame, possibly MORE than what is left); one callback of one frame
+// @funcs StreamingSound::process
+// @catches frames consumed all-or-nothing (a step larger than the remaining frames consumes nothing, so the ring never empties, the sound never becomes Stopped and is never unloaded, while the static sound of the same audio ends); wrong number of frames consumed at rates above 1
+#[kani::proof]
+#[kani::unwind(8)]
+fn c09_streaming_fast_playback_drains_the_ring_and_ends() {
+	let a = KvArenas::empty();
+	let info = a.info();
+	let n: usize = kani::any();
+	kani::assume(n >= 1 && n <= 3);
+	let fast: bool = kani::any();
+	let (rate, step) = if fast { (3.0, 3usize) } else { (2.0, 2usize) };
+	let (mut s, prod, _fr, _ix) = match n { 1 => kv_streaming(1, rate, 0.0), 2 => kv_streaming(2, rate, 0.0), _ => kv_streaming(3, rate, 0.0) };
+	s.shared.reached_end.store(true, Ordering::SeqCst);
+	let mut out = [Frame::ZERO; 1];
+	s.process(&mut out, 1.0, &info);
+	let left = if n > step { n - step } else { 0 };
+	assert!(s.frame_consumer.slots() == left, "the step consumes as many frames as it spans, or all that are left");
+	assert!(s.finished() == (left == 0), "once the decoder is done and the ring is empty the sound is Stopped (and only then)");
+	if left == 0 { assert!(s.shared.state() == PlaybackState::Stopped, "and the handle reports it"); }
+	kani::cover!(n == 1 && !fast, "w:one-frame-left-at-rate-2");
+	kani::cover!(n == 3 && !fast, "w:not-yet-empty");
+	std::mem::forget(s); std::mem::forget(prod);
+}
